@@ -76,6 +76,8 @@ def trace (I : Impl σ Int) (intern : σ → String) (ops : List (Op Int)) : Str
   let L := wEnd.led
   let badFree := L.freed.length - L.freed.eraseDups.length + (L.freed.filter (fun b => decide (L.allocs ≤ b))).length
   let fin := s!"leak={(L.allocs : Int) - L.freed.length} live={(L.ctors : Int) - L.dtors} bad={badFree}"
+  -- an access outside a buffer is undefined behaviour: whatever the real run shows, the model predicts nothing
+  if L.events.contains .oob then "ub:oob" else
   s!"ok {"|".intercalate ss} # {"|".intercalate is} # {fin}"
 
 def vecIntern (v : Vec Int) : String := s!"{v.cap}:{fmtCells (v.cells.drop v.size)}"
